@@ -317,6 +317,30 @@ def fs_valid(case):
         return False
 
 
+def deep_cases():
+    """directory chains whose absolute path is 300 - 1500 bytes long (every component a legal name, far below PATH_MAX), with
+    a DirectoryVisitor scope opened at every level by a RELATIVE path: a working-directory buffer sized for one component
+    shows here"""
+    out = []
+    for names in ([b"d%02d_" % i + b"x" * 34 for i in range(9)],
+                  [b"a b." + bytes([0xc3, 0xa9]) * 20 + b"%d" % i for i in range(12)],
+                  [b"n" * 200 + b"%d" % i for i in range(7)]):
+        case = ["ps root @"]
+        for i in range(len(names)):
+            case.append("ps mkdir " + hx(b"/".join(names[:i + 1])))
+        case.append("ps mkfile %s 7" % hx(b"/".join(names) + b"/f"))
+        case.append("ps cwd")
+        for i, n in enumerate(names):
+            case += ["ps dv_push " + hx(n), "ps cwd"]
+        for i in range(len(names)):
+            case += ["ps dv_pop", "ps cwd"]
+        # nested scopes entered by absolute paths from a deep working directory
+        case += ["ps dv_push " + hx(b"/" + b"/".join(names)), "ps dv_push " + hx(b"/" + names[0]), "ps cwd", "ps dv_pop", "ps cwd", "ps dv_pop", "ps cwd",
+                 "ps size " + hx(names[0]), "ps list " + hx(b"/".join(names))]
+        out.append(case)
+    return out
+
+
 def huge_cases():
     """directories whose total (and single files whose size) pass 2^31 and 2^32: sums must be taken in size_t.  The harness
     creates files from 16 MiB on as sparse files."""
@@ -1171,7 +1195,7 @@ def tie_path(res, binary, wd, tier, rng):
     cases = [c for c in corpus if fs_valid(c)]
     for i in range(ncases):
         cases.append(gen_fs_case(frng, tier, big=(tier != "quick" and i % 25 == 0)))
-    cases += huge_cases()
+    cases += huge_cases() + deep_cases()
     exp = [fs_expected(c) for c in cases]
     impl, dirs, nrun = run_batched(binary, wd, cases, exp, "ps", 10, 40)
     cases, exp = cases[:nrun], exp[:nrun]
